@@ -36,11 +36,21 @@ def nz(t):
 
 def leg_arithmetic(R, rep):
     F = R.F
+    import mir
     for r in RULES:
         b, _ = R.leg(r)
         tb = R.terms(b, 2)
         found = False
-        for i, t, term in _match_results(R, b, tb):
+        res = _match_results(R, b, tb)
+        if not res:
+            # a helper between the producer and the value builder may be too big for the default inlining budget
+            old_limits = dict(mir.LIMITS)
+            mir.LIMITS.update(blocks=200, size=6000)
+            try:
+                res = _match_results(R, b, Terms(R.F, b, inline_depth=3))
+            finally:
+                mir.LIMITS.update(old_limits)
+        for i, t, term in res:
             found = True
             f = agg_fields(term)
             md = f.get("match_detail")
@@ -95,6 +105,13 @@ def _match_results(R, b, tb):
             term = tb.call_term(t)
             if is_agg(term, "matcher::MatchResult"):
                 out.append((i, b.loc(t["sp"]), term))
+            elif not out or True:
+                # wrapped (`Option<MatchResult>` from a helper, `Some(..)` / φ): take the leg values inside
+                seen = {o[2] for o in out}
+                for x in subterms(term):
+                    if is_agg(x, "matcher::MatchResult") and x not in seen:
+                        seen.add(x)
+                        out.append((i, b.loc(t["sp"]), x))
     return out
 
 
@@ -103,6 +120,15 @@ def _is_sale_field(R, b, term, field, depth=0):
     or a value rooted at parameters of b that every caller fills from the sale (a `SellTerms`-like carrier included)"""
     if show(term).endswith(f"as Sell).{field}"):
         return True
+    # a field of a locally built carrier struct that is handed around by `&mut` (`look_ahead.sell_price`): its initial value
+    # counts when nothing in the workspace ever assigns that field
+    if isinstance(term, tuple) and len(term) == 3 and term[0] == "field" and isinstance(term[1], tuple) and term[1] and term[1][0] == "var" \
+            and len(term[1]) > 2 and isinstance(term[1][2], tuple) and term[1][2] and term[1][2][0] == "agg":
+        init = term[1][2]
+        if not P._field_writes_anywhere(R.F, init[1], term[2]):
+            iv = dict(init[3]).get(term[2])
+            if iv is not None:
+                return _is_sale_field(R, b, iv, field, depth)
     if depth >= 2 or not any(isinstance(x, tuple) and x and x[0] == "param" for x in subterms(term)):
         return False
     from mir import subst
